@@ -56,7 +56,7 @@ def gen_case(rng, maxlen=6, fn=None):
         sb = list(sa)
         if sb and rng.random() < 0.5:
             sb[rng.randrange(len(sb))] = rng.choice(alpha)
-    fn = fn if fn is not None else rng.choice([0, 0, 0, 1, 1, 2, 3, 4, 4, 6, 6])
+    fn = fn if fn is not None else rng.choice([0, 0, 0, 1, 1, 2, 3, 4, 4, 6, 6, 7, 7, 8, 9])
     mode = rng.choice(MODES)
     proset = rng.choice(["AX", "AXT", "ABCLMNXYZT_", "AXT_", "CV"])
     pa = [rng.choice(proset) for _ in sa]
@@ -64,20 +64,30 @@ def gen_case(rng, maxlen=6, fn=None):
     rch = rng.choice(["T_", "T_", "T", ""]) if fn in (0, 1, 4, 6) else ""
     sec = rng.random() < 0.5
     batch = []
-    if fn in (4, 6):      # companions in the same align_pairs / align_pairwise call: other pairs, with / without restricted characters
+    if fn in (4, 6, 8, 9):      # companions in the same align_pairs / align_pairwise call: other pairs, with / without restricted characters
         for _ in range(rng.randint(1, 2)):
             oa = [rng.choice(alpha) for _ in range(rng.randint(1, 4))]
             ob = [rng.choice(alpha) for _ in range(rng.randint(1, 4))]
             ps = rng.choice(["AX", "AXT_", "T_"])
             batch.append({"seqA": oa, "seqB": ob, "proA": [rng.choice(ps) for _ in oa], "proB": [rng.choice(ps) for _ in ob],
                           "wA": [rng.choice(WEIGHTS) for _ in oa], "wB": [rng.choice(WEIGHTS) for _ in ob]})
-    if fn == 4 and rng.random() < 0.4:
+    if fn in (4, 8) and rng.random() < 0.4:
         # the same batch also holds the MIRROR image of this pair (and sometimes a copy of it)
         batch.append({"seqA": list(sb), "seqB": list(sa), "proA": list(pb), "proB": list(pa),
                       "wA": None, "wB": None})
         if rng.random() < 0.3:
             batch.append({"seqA": list(sa), "seqB": list(sb), "proA": list(pa), "proB": list(pb), "wA": None, "wB": None})
     scorer = gen_scorer(rng, alpha)
+    if fn == 7 and rng.random() < 0.4:
+        # pw_align builds its own scorer when none is passed: 1 for identical symbols, -1 otherwise
+        scorer = {(a, b): (F(1) if a == b else F(-1)) for a in alpha for b in alpha}
+        default_scorer = True
+    else:
+        default_scorer = False
+    if fn == 9:
+        for a in alpha:
+            if scorer[a, a] <= 0:
+                scorer[a, a] = F(rng.randint(1, 6), rng.choice([1, 2]))
     if fn == 6:
         if rng.random() < 0.3:      # same class sequence, different prosody
             sb = list(sa)
@@ -92,14 +102,21 @@ def gen_case(rng, maxlen=6, fn=None):
         if o["wA"] is None:       # mirror / copy of this pair: the weights go with the sequences
             mirrored = o["seqA"] == sb and o["proA"] == pb and not (o["seqA"] == sa and o["proA"] == pa)
             o["wA"], o["wB"] = (list(wB), list(wA)) if mirrored else (list(wA), list(wB))
-    return {
+    case = {
         "batch": batch, "batch_pos": rng.randint(0, len(batch)),
         "fn": fn, "mode": mode, "sec": sec,
         "seqA": sa, "seqB": sb, "proA": pa, "proB": pb,
         "wA": wA, "wB": wB,
         "gop": rng.choice(GOPS), "scale": rng.choice(SCALES), "factor": rng.choice(FACTORS),
         "scorer": scorer, "r": rch, "alpha": alpha,
+        "default_scorer": default_scorer, "container": rng.choice(["str", "tuple", "list"]),
+        "omit": sorted(k for k in ("gop", "scale", "mode") if rng.random() < 0.25) if fn == 7 else [],
     }
+    # a keyword that is left out takes the documented default of pw_align; the case records the effective value
+    for k, v in (("gop", F(-1)), ("scale", F(1, 2)), ("mode", "global")):
+        if k in case["omit"]:
+            case[k] = v
+    return case
 
 
 def exhaustive_cases(maxlen=3, alpha="ab"):
@@ -202,6 +219,45 @@ def run_impl(case):
             out = f(sa, sb, M, N, scale, scorer)
         else:
             out = f(sa, sb, M, N, float(case["gop"]), scale, scorer)
+    elif case["fn"] == 7:
+        # lingpy.align.pairwise.pw_align: strings, tuples or lists; own scorer when none is passed; keyword defaults
+        from lingpy.align.pairwise import pw_align
+        conv = {"str": "".join, "tuple": tuple, "list": list}[case.get("container", "list")]
+        kw = {"gop": float(case["gop"]), "scale": scale, "mode": mode}
+        if not case.get("default_scorer"):
+            kw["scorer"] = scorer
+        for k in case.get("omit", ()):
+            kw.pop(k)
+        denom = sum(case["scorer"][x, x] for x in sa + sb)
+        out = pw_align(conv(sa), conv(sb), **kw)
+        if denom:
+            outd = pw_align(conv(sa), conv(sb), distance=True, **kw)
+            if list(outd[:2]) != list(out[:2]):
+                raise AssertionError("pw_align returns different rows with distance=True: %r / %r" % (out, outd))
+            res["dist"] = F(outd[2])
+        else:
+            res["dist"] = None
+    elif case["fn"] == 8:
+        denom = sum(case["scorer"][x, x] for x in sa + sb)
+        for o in case["batch"]:
+            if sum(case["scorer"][x, x] for x in o["seqA"] + o["seqB"]) == 0:
+                denom = 0
+        pairs = [(list(o["seqA"]), list(o["seqB"])) for o in case["batch"]]
+        pos = case["batch_pos"]
+        pairs.insert(pos, (sa, sb))
+        for _ in range(2):
+            outs = talign.align_pairs(pairs, float(case["gop"]), scale, scorer, mode, 2 if denom else 0)
+        out = outs[pos]
+        res["dist"] = F(out[3]) if denom else None
+    elif case["fn"] == 9:
+        # talign.align_pairwise: all pairs i <= j of a list of sequences; entry 0 is (0, 0), entry 1 the pair (0, 1)
+        seqs = [sa, sb] + [list(o["seqA"]) for o in case["batch"]]
+        outs = talign.align_pairwise(seqs, float(case["gop"]), scale, scorer, mode)
+        out = outs[1]
+        res["dist"] = F(out[3])
+        n = len(seqs)
+        if len(outs) != n * (n + 1) // 2 or list(outs[0][:2]) != [sa, sa] or outs[0][3] != 0.0:
+            raise AssertionError("talign.align_pairwise: wrong number of entries or wrong self entry")
     else:
         denom = sum(case["scorer"][x, x] for x in sa + sb)
         out = talign.align_pair(sa, sb, float(case["gop"]), scale, scorer, mode, 2 if denom else 0)
@@ -243,7 +299,7 @@ def cin_lit(case):
 
 def render(case, res):
     return L.record("align_case", [
-        cin_lit(case), L.nat({4: 1, 6: 4}.get(case["fn"], case["fn"])), COQ_MODE[case["mode"]], L.b(case["sec"]),
+        cin_lit(case), L.nat({4: 1, 6: 4, 7: 3, 8: 3, 9: 3}.get(case["fn"], case["fn"])), COQ_MODE[case["mode"]], L.b(case["sec"]),
         L.q(case["gop"]),
         result_lit(res["out"]), L.opt(res.get("dist"), L.q)])
 
